@@ -307,11 +307,16 @@ func c11Case(run *evid.Run, i int, j *Journal) {
 			w2.Store = cs
 			var prog chan iface.IPFSLogEntry
 			var progSeen []string
+			progNil := 0
 			progDone := make(chan struct{})
 			if rng.Intn(2) == 0 {
 				prog = make(chan iface.IPFSLogEntry)
 				go func() {
 					for e := range prog {
+						if e == nil || !e.Defined() {
+							progNil++ // a notification that is not an entry (a consumer calling a method on it would crash)
+							continue
+						}
 						progSeen = append(progSeen, e.GetHash().String())
 					}
 					close(progDone)
@@ -341,6 +346,11 @@ func c11Case(run *evid.Run, i int, j *Journal) {
 			}
 			run.Count("via_"+via, 1)
 			var viaErr error
+			var viaLen *int // "no limit" is spelled either by leaving the length out or by the explicit -1
+			if rng.Intn(2) == 0 {
+				m := -1
+				viaLen = &m
+			}
 			call := func() {
 				defer close(returned)
 				defer callerCancel()
@@ -349,7 +359,7 @@ func c11Case(run *evid.Run, i int, j *Journal) {
 				} else {
 					var ll *ipfslog.IPFSLog
 					ll, viaErr = ipfslog.NewFromMultihash(callerCtx, cs.API(), x.W.Idents[0], mc, x.W.LogOpts(x.W.LogID),
-						&ipfslog.FetchOptions{Concurrency: p.Conc, Timeout: fo.Timeout, ShouldExclude: fo.ShouldExclude})
+						&ipfslog.FetchOptions{Concurrency: p.Conc, Timeout: fo.Timeout, ShouldExclude: fo.ShouldExclude, Length: viaLen})
 					if ll != nil {
 						result = ll.GetEntries().Slice()
 					}
@@ -492,6 +502,9 @@ func c11Case(run *evid.Run, i int, j *Journal) {
 					run.Violate("C11/duplicate-result", d, wit(), "entry %s returned twice", hx.Short(hs))
 				}
 				got[hs] = true
+			}
+			if progNil > 0 {
+				run.Violate("C11/progress-not-an-entry", d, wit(), "%d progress notifications were nil / undefined entries (sent for blocks that could not be loaded): a consumer that uses them crashes", progNil)
 			}
 			if prog != nil {
 				sort.Strings(progSeen)
